@@ -91,7 +91,7 @@ func genC18(t *rapid.T, tier string) (*World, any) {
 	case "arg":
 		p.Cmd = pick(t, []string{"generate", "update", "compare", "format"}, "cmd")
 		ks := []string{"0", "1", "2", "3", "7", "255", "256", "300", "18446744073709551616", "100000000000000000000", "01", "0255", "-1", "1.5", "x", ""}
-		shapes := []string{"%s", "%s.ra", "%s-chain%s", "%s-chain%s.ra", "%s.ra.ra", "%s-chain%s.ra.ra", "%sx", "x%s", "%s-chain%sx", "%s-CHAIN%s", "%s-chain-%s", "%s_chain%s", " %s", "%s ", "%s-chain%s-chain%s", "./%s", "%s.RA", "%s-chain%s.r"}
+		shapes := []string{"%s", "%s.ra", "%s-chain%s", "%s-chain%s.ra", "%s.ra.ra", "%s-chain%s.ra.ra", "%sx", "x%s", "%s-chain%sx", "%s-CHAIN%s", "%s-chain-%s", "%s_chain%s", " %s", "%s ", "%s-chain%s-chain%s", "./%s", "%s.RA", "%s-chain%s.r", "x/%s", "../%s-chain%s", "include/%s.ra", "/tmp/%s", "regex-assembly/%s"}
 		ids := []string{"942100", "942100", "942100", "94210", "9421000", "0942100", "94210a", "٩٤٢١٠٠"}
 		id := pick(t, ids, "id")
 		k := pick(t, ks, "k")
@@ -152,6 +152,8 @@ func genC18(t *rapid.T, tier string) (*World, any) {
 		putRoot(w, "crs/regex-assembly-plugins/inner", "innerplug")
 		putRoot(w, "crs/regex-assembly/vendored", "vendored")
 		w.Dirs = append(w.Dirs, "empty/x/y", "crs/util/a/nested/deep/er")
+		// a symbolic link inside one root that points into another: the ancestors of the -d ARGUMENT count, not those of the link's target
+		w.Links = map[string]string{"crs/linked": "../other/util/a", "crs/util/dangling": "../../nowhere"}
 		type place struct{ cwd, dir, root string }
 		places := []place{
 			{"crs", "", "crs"}, {"crs", ".", "crs"}, {"", "crs", "crs"}, {"", "crs/rules", "crs"}, {"", "crs/util/a/b/c", "crs"},
@@ -164,6 +166,7 @@ func genC18(t *rapid.T, tier string) (*World, any) {
 			{"", "crs/regex-assembly-plugins/inner", "crs/regex-assembly-plugins/inner"}, {"", "crs/regex-assembly-plugins/inner/rules", "crs/regex-assembly-plugins/inner"},
 			{"", "crs/regex-assembly-plugins", "crs"}, {"", "crs/regex-assembly/vendored", "crs/regex-assembly/vendored"}, {"", "crs/regex-assembly/vendored/rules", "crs/regex-assembly/vendored"},
 			{"crs/regex-assembly/vendored/rules", "..", "crs/regex-assembly/vendored"},
+			{"", "crs/linked", "crs"}, {"", "crs/linked/b", "crs"}, {"crs", "linked", "crs"},
 			{"", "crs/", "crs"}, {"", "crs/rules/", "crs"}, {"", "crs/./rules/../util", "crs"}, {"crs", "rules/REQUEST-942-APPLICATION-ATTACK-SQLI.conf", "crs"},
 			{"", "crs/regex-assembly/942110.ra", "crs"}, {"", "crs/util/a/nested/", "crs/util/a/nested"},
 		}
